@@ -48,7 +48,7 @@ def await_coro(c: Ctx) -> Unit:
 
 
 def where(u: Unit, node: ast.AST | None = None) -> str:
-    return f'{u.module}:{getattr(node, "lineno", u.node.lineno)} {u.qualname}'
+    return f'{u.module}:{getattr(node, "orig_lineno", None) or getattr(node, "lineno", u.node.lineno)} {u.qualname}'
 
 
 def is_name(e: ast.AST | None, name: str) -> bool:
